@@ -39,6 +39,24 @@ class CallMixin(ExprMixin):
                 node.col_offset = getattr(node.func, "col_offset", 0)
                 f = node.func
         if any(isinstance(a, ast.Starred) for a in node.args) or any(k.arg is None for k in node.keywords):
+            if isinstance(f, ast.Name) and f.id in S.RECORDS and f.id not in st.locals and not node.args and len(node.keywords) == 1:
+                # Cls(**mapping): a new object whose fields are whatever the mapping holds - modelled as a fresh object with unconstrained fields
+                # (sound over-approximation; the constructor may also reject the mapping)
+                for _v, s0 in self.ev(node.keywords[0].value, st):
+                    if isinstance(_v, Raise):
+                        yield _v, s0
+                        continue
+                    ref = V.fresh(T.Ref(f.id), "new_" + f.id)
+                    s0.allocate(f.id, ref.t)
+                    if s0.written_alloc is not None:
+                        from .state import root_record
+                        s0.written_alloc.add(root_record(f.id))
+                    bad = s0.clone()
+                    bad.trace.append(f"L{node.lineno}:{f.id}(**...) raises ValidationError")
+                    yield Raise("ValidationError", node.lineno, f"{f.id}(**mapping) rejected"), bad
+                    self.last_call_fresh = True
+                    yield ref, s0
+                return
             raise UnsupportedError(f"*args/**kwargs in call at line {node.lineno}")
         # logging and print: dropped (arguments still evaluated for attribute-safety)
         root = f
